@@ -841,6 +841,254 @@ def path_spelling_cases(ctx, spy, sample):
             os.environ["HOME"] = old_home
 
 
+NONREG_TIMEOUT = 10.0
+
+
+def _in_thread(fn, timeout=NONREG_TIMEOUT):
+    """run fn() in a daemon thread: ('ok', value) | ('exc', exception) | ('timeout', None) — never blocks the check"""
+    import threading
+
+    box = {}
+
+    def run():
+        try:
+            box["v"] = ("ok", fn())
+        except BaseException as ex:  # noqa: BLE001
+            box["v"] = ("exc", ex)
+
+    t = threading.Thread(target=run, daemon=True)
+    t.start()
+    t.join(timeout)
+    return box.get("v", ("timeout", None)), t
+
+
+def _feed(opener, text, give_up=NONREG_TIMEOUT):
+    """writer side of a pipe in a daemon thread: `opener()` returns a writable fd or raises OSError (ENXIO: no reader
+    yet) — polled, never blocking; the text is written and the end closed"""
+    import threading
+    import time
+
+    def run():
+        t0 = time.time()
+        fd = None
+        while fd is None and time.time() - t0 < give_up:
+            try:
+                fd = opener()
+            except OSError:
+                time.sleep(0.005)
+        if fd is None:
+            return
+        try:
+            os.set_blocking(fd, True)
+            data = text.encode("utf-8")
+            while data:
+                n = os.write(fd, data)
+                data = data[n:]
+        except OSError:
+            pass
+        finally:
+            try:
+                os.close(fd)
+            except OSError:
+                pass
+
+    t = threading.Thread(target=run, daemon=True)
+    t.start()
+    return t
+
+
+def _release_readers(fifo):
+    """unblock anything still waiting to read a FIFO: open the writing end for a moment (the reader then sees EOF)"""
+    try:
+        fd = os.open(fifo, os.O_WRONLY | os.O_NONBLOCK)
+        os.close(fd)
+    except OSError:
+        pass
+
+
+class NonRegular:
+    """makes a readable path that is NOT a regular file, holding `text`; every kind is fed by a polling writer thread"""
+
+    KINDS = ["fifo", "dev-fd", "link-to-fifo"]
+
+    def __init__(self, work: Path):
+        self.work = work
+        self.n = 0
+        self.cleanup = []
+
+    def make(self, kind, fmt, text):
+        """-> (path, explicit format needed?)"""
+        self.n += 1
+        if kind == "dev-fd":
+            r, w = os.pipe()
+            _feed(lambda: w, text)
+            self.cleanup.append(lambda: _close_quiet(r))
+            return Path(f"/dev/fd/{r}"), True
+        fifo = self.work / (f"pipe{self.n}.{fmt}" if kind == "fifo" else f"pipe{self.n}.fifo")
+        if fifo.exists() or fifo.is_symlink():
+            fifo.unlink()
+        os.mkfifo(fifo)
+        _feed(lambda: os.open(fifo, os.O_WRONLY | os.O_NONBLOCK), text)
+        self.cleanup.append(lambda: (_release_readers(fifo), fifo.unlink(missing_ok=True)))
+        if kind == "link-to-fifo":
+            link = L.make_link(self.work / f"link{self.n}.{fmt}", fifo)
+            self.cleanup.append(lambda: link.unlink(missing_ok=True))
+            return link, False
+        return fifo, False
+
+    def done(self):
+        for c in self.cleanup:
+            try:
+                c()
+            except OSError:
+                pass
+        self.cleanup = []
+
+
+def _close_quiet(fd):
+    try:
+        os.close(fd)
+    except OSError:
+        pass
+
+
+def nonregular_path_cases(ctx, spy, sample):
+    """PATHS THAT ARE READABLE BUT NOT REGULAR FILES: a named FIFO, /dev/fd/<n> of a pipe, a symbolic link to a FIFO —
+    each fed by a writer thread — for load / load_all × xyz / mol2 × class, format given and (where the path has a
+    suffix) deduced; compared with the class method reading the same kind of path.  Dump side: a FIFO and /dev/fd/<n>
+    as targets (the class methods write to whatever `open` gives them).  Every open runs under a timeout."""
+    import molli as ml
+
+    work = sample.workdir / "nonregular"
+    work.mkdir(exist_ok=True)
+    nr = NonRegular(work)
+    try:
+        for f in ("xyz", "mol2"):
+            text = Path(sample.files[f]).read_text()
+            if len(text) > 200_000:
+                continue
+            for kind in NonRegular.KINDS:
+                for e in ("load", "load_all"):
+                    for o in L.OTYPES:
+                        if e == "load_all" and o == "ensemble":
+                            continue
+                        C = L.otype_cls(o)
+                        # reference: the class method on a fresh path of the same kind
+                        rp_, _ = nr.make(kind, f, text)
+                        (rkind, rval), _t = _in_thread(lambda: getattr(C, f"{e}_{f}")(rp_ if o != "structure" else str(rp_)))
+                        nr.done()
+                        for fmt_arg in ((f,) if kind == "dev-fd" else (f, None)):
+                            gp, _ = nr.make(kind, f, text)
+                            with warnings.catch_warnings():
+                                warnings.simplefilter("ignore")
+                                (gkind, gval), gt = _in_thread(lambda: getattr(ml, e)(gp if o != "structure" else str(gp), fmt_arg, otype=L.otype_arg(o)))
+                            nr.done()
+                            ctx.case(f"nonregular:{sample.tag}:{kind}:{e}:{f}:{o}:{fmt_arg}", nontrivial=rkind == "ok")
+                            ctx.count("nonregular-paths:" + kind)
+                            what = None
+                            if rkind == "timeout":
+                                ctx.disagree("class method did not return from a non-regular path", f"{kind} {e} {f} {o}", "timeout", "a molecule")
+                                continue
+                            if gkind == "timeout":
+                                what = f"the entry point did not return within {NONREG_TIMEOUT:.0f} s, the class method did"
+                            elif gkind != rkind:
+                                what = (f"entry point: {type(gval).__name__ if gkind == 'exc' else 'returned'}, class method on the same kind of path: "
+                                        f"{type(rval).__name__ if rkind == 'exc' else 'returned'}")
+                            elif gkind == "exc" and type(gval) is not type(rval):
+                                what = f"entry point raised {type(gval).__name__}, class method {type(rval).__name__}"
+                            elif gkind == "ok" and canon_value(gval) != canon_value(rval):
+                                what = first_diff(canon_value(gval), canon_value(rval))
+                            if what:
+                                ctx.violation(f"C09:{e}:non-regular-path-not-read-as-by-class-method",
+                                              f"ml.{e}(<{kind} holding {f} text>, {fmt_arg!r}, otype={o}) on {sample.tag}: {what}",
+                                              {"nonregular": {"kind": kind, "entry": e, "fmt": f, "fmt_arg": fmt_arg, "otype": o,
+                                                              "text": text if len(text) < 20000 else text[:20000]}})
+            # dump side: the text arrives at a reader of the FIFO / pipe, as with the class method on open(path, "w")
+            for kind in ("fifo", "dev-fd"):
+                for o in L.OTYPES:
+                    obj = sample.objs[o]
+                    st = io.StringIO()
+                    getattr(obj, f"dump_{f}")(st)
+                    want = st.getvalue()
+                    got = {}
+                    if kind == "fifo":
+                        target = work / f"sink_{o}.{f}"
+                        if target.exists():
+                            target.unlink()
+                        os.mkfifo(target)
+
+                        def reader():
+                            fd = os.open(target, os.O_RDONLY | os.O_NONBLOCK)     # never blocks; then wait for the text
+                            return _drain(fd)
+                    else:
+                        r, w = os.pipe()
+                        target = Path(f"/dev/fd/{w}")
+
+                        def reader():
+                            return _drain(r, close_first=w, when=dumped)
+                    import threading
+
+                    dumped = threading.Event()
+                    rt = threading.Thread(target=lambda: got.setdefault("text", reader()), daemon=True)
+                    rt.start()          # the reader drains while dump writes (a text larger than the pipe buffer must not block it)
+                    (dk, dv), _t = _in_thread(lambda: ml.dump(obj, target, f, mode="w"))
+                    dumped.set()
+                    rt.join(NONREG_TIMEOUT)
+                    if kind == "fifo":
+                        target.unlink(missing_ok=True)
+                    ctx.case(f"nonregular:dump:{sample.tag}:{kind}:{f}:{o}", nontrivial=True)
+                    ctx.count("nonregular-paths:dump-" + kind)
+                    what = None
+                    if dk == "timeout":
+                        what = "ml.dump did not return"
+                    elif dk == "exc":
+                        what = f"ml.dump raised {type(dv).__name__}"
+                    elif got.get("text") != want:
+                        what = "the text that arrived differs from the class method's"
+                    if what:
+                        ctx.violation("C09:dump:non-regular-target-not-written-as-by-class-method",
+                                      f"ml.dump(<{o}>, <{kind}>, {f!r}, mode='w') on {sample.tag}: {what}",
+                                      {"nonregular": {"kind": kind, "entry": "dump", "fmt": f, "otype": o}})
+    finally:
+        nr.done()
+
+
+def _drain(fd, close_first=None, when=None, timeout=NONREG_TIMEOUT):
+    """read a pipe end until EOF (or the timeout) without ever blocking for good; `close_first`: our own copy of the
+    writing end, closed once the event `when` is set (the writer is done), so that EOF can arrive"""
+    import select
+    import time
+
+    t0 = time.time()
+    chunks = []
+    seen_data = False
+    closed_writer = False
+    try:
+        while time.time() - t0 < timeout:
+            if close_first is not None and not closed_writer and (when is None or when.is_set()):
+                _close_quiet(close_first)      # our copy of the writing end: EOF comes when dump's own handle is closed
+                closed_writer = True
+            r, _, _ = select.select([fd], [], [], 0.05)
+            if not r:
+                continue
+            try:
+                b = os.read(fd, 65536)
+            except BlockingIOError:
+                continue
+            if b:
+                seen_data = True
+                chunks.append(b)
+            elif (seen_data and close_first is None) or closed_writer:
+                break
+            else:
+                time.sleep(0.005)       # FIFO: no writer has opened yet
+    finally:
+        _close_quiet(fd)
+        if close_first is not None and not closed_writer:
+            _close_quiet(close_first)
+    return b"".join(chunks).decode("utf-8", errors="replace")
+
+
 def failing_dump_cases(ctx, spy, sample):
     """A DUMP THAT FAILS leaves the caller's file alone: a target path that already holds earlier records (the default
     mode appends), then a dump that raises — for every failure class the entry point can meet.  Afterwards the file
@@ -1041,6 +1289,8 @@ def run(ctx):
                 sink_cases(ctx, spy, s)
                 path_spelling_cases(ctx, spy, s)
                 failing_dump_cases(ctx, spy, s)
+            if (i < 2 and ctx.quick()) or (not ctx.quick() and i % 3 == 0):
+                nonregular_path_cases(ctx, spy, s)
             if i == len(samples) - 1:
                 # ---------------- (2b) sequences of calls: hidden state between calls ----------------
                 contents = {"xyz": [], "mol2": [], "cdxml": []}
@@ -1072,6 +1322,28 @@ def replay(ctx, path):
     obj = json.loads(path.read_text())
     print(json.dumps({k: v for k, v in obj.items() if k != "replay"}, indent=1)[:1500])
     r = obj.get("replay") or {}
+    if "nonregular" in r:
+        q = r["nonregular"]
+        print(f"re-running the non-regular path cases; looking for: ml.{q['entry']} on a {q['kind']} holding {q['fmt']} text, otype={q.get('otype')}")
+        files = {"xyz": REPO / "molli/files/pentane_confs.xyz", "mol2": REPO / "molli/files/pentane_confs.mol2",
+                 "cdxml": REPO / "molli/files/parser_demo.cdxml"}
+        if q.get("text"):
+            fp = ctx.scratch / ("replay." + q["fmt"])
+            fp.write_text(q["text"])
+            files[q["fmt"]] = fp
+        s_ = make_sample(files, ctx.scratch, "replay", None)
+
+        class _P:
+            def case(self, *a, **k): pass
+            def count(self, *a, **k): pass
+            def disagree(self, *a, **k): print("  broken correspondence", a[:3])
+            def violation(self, kind, what, rp):
+                if rp["nonregular"]["kind"] == q["kind"] and rp["nonregular"]["entry"] == q["entry"] and rp["nonregular"]["fmt"] == q["fmt"]:
+                    print("  VIOLATION", kind, "-", what[:300])
+
+        with L.Spy() as spy:
+            nonregular_path_cases(_P(), spy, s_)
+        return 0
     if "failing_dump" in r:
         files = {"xyz": REPO / "molli/files/pentane_confs.xyz", "mol2": REPO / "molli/files/pentane_confs.mol2",
                  "cdxml": REPO / "molli/files/parser_demo.cdxml"}
